@@ -7,6 +7,7 @@ import (
 func init() {
 	pool := WorldRun{World: "pool", Quick: b(2, 2, 2), Thorough: b(3, 2, 2), OneEnv: true}
 	coin := WorldRun{World: "coin", Quick: b(2, 2, 2), Thorough: b(3, 2, 3), OneEnv: true}
-	regExplore("C15", []WorldRun{pool, coin}, one(monitors.Slippage{}))
-	regExplore("C13X", []WorldRun{pool}, one(monitors.PoolsNeverLose{}))
+	// poolfee: limits calibrated to the outcome with / without the fee conversion through the traded pool
+	regExplore("C15", []WorldRun{pool, coin, wrPoolFee}, one(monitors.Slippage{}))
+	regExplore("C13X", []WorldRun{pool, wrPoolFee}, one(monitors.PoolsNeverLose{}))
 }
